@@ -2,7 +2,7 @@
    specification vocabulary in Acme.C03.Spec / SpecFloat; non-vacuity in Acme.C03.Examples). *)
 From Coq Require Import ZArith Reals List Bool.
 From Flocq Require Import Core IEEE754.BinarySingleNaN IEEE754.Binary IEEE754.Bits.
-From Acme.C03 Require Import Model Spec SpecFloat Proofs ProofsFloat Examples Shared SharedProofs.
+From Acme.C03 Require Import Model Spec SpecFloat Proofs ProofsFloat ProofsFloat2 Examples Shared SharedProofs Links.
 Import ListNotations.
 Local Open Scope Z_scope.
 
@@ -199,3 +199,102 @@ Theorem enum_size_shared_value_refuted :
     se_size (h_b h) = enum_width 1 (se_real_max h (h_b h)).
 Proof. exact SharedProofs.enum_size_shared_value_refuted. Qed.
 Print Assumptions enum_size_shared_value_refuted.
+
+(* --- what the code does at the edges (AUDIT3): integer kinds TRUNCATE a non-integral scale / offset
+       toward zero (the property's quantifier asks for integral ones, where this is decode_int_spec) *)
+Theorem decode_int_trunc_spec : forall (signed : bool) (n : Z) (scale offset : f64) (raw : Z),
+  1 <= n <= 64 -> 0 <= raw < 2 ^ n ->
+  finite64 scale = true -> finite64 offset = true ->
+  let sc := Ztrunc (B2R64 scale) in
+  let off := Ztrunc (B2R64 offset) in
+  (if signed then - two63 <= sc < two63 /\ - two63 <= off < two63 /\
+                  - two63 <= sext n raw * sc + off < two63
+   else - two63 < sc < two64 /\ - two63 < off < two64 /\ 0 <= raw * sc + off < two64) ->
+  decode_int signed n scale offset raw = sext_if signed n raw * sc + off.
+Proof. exact ProofsFloat2.decode_int_trunc_spec. Qed.
+Print Assumptions decode_int_trunc_spec.
+
+(* float kinds: finite parameters do not imply a finite result; overflow gives the infinity of the
+   product's sign, in the product or in the sum *)
+Theorem decode_float_overflow_product : forall (signed : bool) (n : Z) (scale offset : f64) (raw : Z),
+  1 <= n <= 64 -> 0 <= raw < 2 ^ n ->
+  finite64 scale = true -> finite64 offset = true ->
+  let x := value_float signed n raw in
+  (max64 <= Rabs (rnd (B2R64 x * B2R64 scale)))%R ->
+  decode_float signed n scale offset raw =
+  B754_infinity 53 1024 (xorb (Bsign 53 1024 x) (Bsign 53 1024 scale)).
+Proof. exact ProofsFloat2.decode_float_overflow_product. Qed.
+Print Assumptions decode_float_overflow_product.
+
+Theorem decode_float_overflow_sum : forall (signed : bool) (n : Z) (scale offset : f64) (raw : Z),
+  1 <= n <= 64 -> 0 <= raw < 2 ^ n ->
+  finite64 scale = true -> finite64 offset = true ->
+  let x := value_float signed n raw in
+  let p := fmul x scale in
+  (Rabs (rnd (B2R64 x * B2R64 scale)) < max64)%R ->
+  (max64 <= Rabs (rnd (B2R64 p + B2R64 offset)))%R ->
+  decode_float signed n scale offset raw = B754_infinity 53 1024 (Bsign 53 1024 p) /\
+  Bsign 53 1024 p = Bsign 53 1024 offset.
+Proof. exact ProofsFloat2.decode_float_overflow_sum. Qed.
+Print Assumptions decode_float_overflow_sum.
+
+(* the sign of a zero result: raw 0 decodes to the offset, or to the zero whose sign is negative only
+   when scale and offset are both negative (zeros) *)
+Theorem decode_float_zero : forall (signed : bool) (n : Z) (scale offset : f64),
+  1 <= n <= 64 -> finite64 scale = true -> finite64 offset = true ->
+  decode_float signed n scale offset 0 =
+  match offset with
+  | B754_zero _ _ so => B754_zero 53 1024 (andb (Bsign 53 1024 scale) so)
+  | _ => offset
+  end.
+Proof. exact ProofsFloat2.decode_float_zero. Qed.
+Print Assumptions decode_float_zero.
+
+(* --- links.  C03 <-> C01: the closed forms C01's model uses are the functions proved correct here *)
+Theorem calc_size_agrees : forall v, - two63 <= v < two63 -> calc_size v = Acme.C01.Model.calc_size v.
+Proof. exact Links.calc_size_agrees. Qed.
+Print Assumptions calc_size_agrees.
+
+Theorem selector_agrees : forall c, - two63 < c <= two63 -> mux_selector_size c = Acme.C01.Model.selw c.
+Proof. exact Links.selector_agrees. Qed.
+Print Assumptions selector_agrees.
+
+Theorem enum_size_agrees : forall e, - two63 <= e_max e < two63 ->
+  enum_size e = Acme.C01.Model.esize_of (e_min e) (e_max e).
+Proof. exact Links.enum_size_agrees. Qed.
+Print Assumptions enum_size_agrees.
+
+(* C02 -> C03: the raw value Decode extracts for a placed signal is the payload slice, a number of
+   exactly size bits (the `raw` of the theorems above); hence the physical value of a placed signal *)
+Theorem raw_of_signal : forall size s data,
+  Acme.C02.Spec.sig_ok size s -> Acme.C02.Spec.narrow s -> Acme.C02.Spec.d08 s = false ->
+  Acme.C02.Spec.bytes_ok data -> size <= Acme.C02.Spec.nbits data ->
+  Acme.C02.Model.sig_raw s data = payload_raw s data /\
+  1 <= Acme.C02.Model.s_size s <= 64 /\ 0 <= Acme.C02.Model.sig_raw s data < 2 ^ Acme.C02.Model.s_size s.
+Proof. exact Links.raw_of_signal. Qed.
+Print Assumptions raw_of_signal.
+
+Theorem signal_value_integer : forall size s data (signed : bool) (scale offset : f64) (sc off : Z),
+  Acme.C02.Spec.sig_ok size s -> Acme.C02.Spec.narrow s -> Acme.C02.Spec.d08 s = false ->
+  Acme.C02.Spec.bytes_ok data -> size <= Acme.C02.Spec.nbits data ->
+  finite64 scale = true -> B2R64 scale = IZR sc -> finite64 offset = true -> B2R64 offset = IZR off ->
+  let n := Acme.C02.Model.s_size s in
+  let raw := payload_raw s data in
+  (if signed then - two63 <= sc < two63 /\ - two63 <= off < two63 /\ - two63 <= sext n raw * sc + off < two63
+   else - two63 < sc < two64 /\ - two63 < off < two64 /\ 0 <= raw * sc + off < two64) ->
+  decode_std KInteger signed n scale offset (Acme.C02.Model.sig_raw s data) =
+  if signed then VInt (sext n raw * sc + off) else VUint (raw * sc + off).
+Proof. exact Links.signal_value_integer. Qed.
+Print Assumptions signal_value_integer.
+
+Theorem signal_value_float : forall size s data (signed : bool) (scale offset : f64),
+  Acme.C02.Spec.sig_ok size s -> Acme.C02.Spec.narrow s -> Acme.C02.Spec.d08 s = false ->
+  Acme.C02.Spec.bytes_ok data -> size <= Acme.C02.Spec.nbits data ->
+  finite64 scale = true -> finite64 offset = true ->
+  let n := Acme.C02.Model.s_size s in
+  let x := rnd (IZR (sext_if signed n (payload_raw s data))) in
+  let p := rnd (x * B2R64 scale) in
+  (Rabs p < max64)%R -> (Rabs (rnd (p + B2R64 offset)) < max64)%R ->
+  B2R64 (decode_float signed n scale offset (Acme.C02.Model.sig_raw s data)) = rnd (p + B2R64 offset).
+Proof. exact Links.signal_value_float. Qed.
+Print Assumptions signal_value_float.
